@@ -43,7 +43,9 @@ func val(ty string, r *vlib.Rand, n int) *mrun.Value {
 	case "float":
 		return &mrun.Value{Ty: "float", F: []uint64{0x3ff0000000000000, 0xbff8000000000000, 0x7ff0000000000000, 0x4059000000000000}[n%4]}
 	}
-	return &mrun.Value{Ty: "str", S: vlib.Q(fmt.Sprintf("s%d", n))}
+	// text values as logs have them: ANSI colour codes, NUL, BEL, DEL, quotes, a
+	// rune outside the BMP (valid UTF-8 only: the JSON view replaces invalid bytes)
+	return &mrun.Value{Ty: "str", S: vlib.Q(fmt.Sprintf("s%d", n) + []string{"", "", "\x1b[31m", "\x00", "\a\v", "\x7f", "\"q\"\\", "\U0001F600"}[n%8])}
 }
 
 // alphabet of single operations over the universe
@@ -147,7 +149,7 @@ func slowSpecs(rng *vlib.Rand, thorough bool) []*slowSpec {
 		return &slowSpec{c: c, ops: slowOps(c, rng, n), pauses: pauses}
 	}
 	sp := []*slowSpec{
-		mk(0, 4, pausesAt(1, 200)),                       // receive one label set, pause, drain
+		mk(0, 4, pausesAt(1, 200)),                         // receive one label set, pause, drain
 		mk(1, 3, pausesAt(0, 200, 1, 200, 2, 200, 3, 200)), // a pause before every receive, the closing one included
 		mk(2, 1, pausesAt(0, 200, 1, 200)),
 		mk(3, 0, pausesAt(0, 200)), // no live tuple: only the close
@@ -161,7 +163,7 @@ func slowSpecs(rng *vlib.Rand, thorough bool) []*slowSpec {
 			mk(0, 5, pausesAt(1, 11000)),
 			mk(1, 4, pausesAt(1, 31000)),
 			mk(2, 3, pausesAt(0, 6000)),
-			mk(3, 7, pausesAt(5, 6000)), // before the last label set
+			mk(3, 7, pausesAt(5, 6000)),  // before the last label set
 			mk(4, 3, pausesAt(3, 11000)), // before the receive that sees the close
 			mk(5, 70, pausesAt(1, 2500, 30, 2500, 31, 2500)),
 		)
